@@ -113,8 +113,8 @@ fn section_of(i: usize) -> Option<usize> {
 }
 
 /// Writes the document for value `c` with the leaves in `omitted` (bit set) left out. A tagged enum
-/// whose `type` is omitted is omitted as a whole; `alpha` is never omitted while `type = "Tukey"`
-/// is present (its absence is a parse error, which the statement does not classify).
+/// whose `type` is omitted is omitted as a whole; `partitions` / `alpha` can be omitted while the
+/// `type` tag is present (the documented defaults 16 / 0.4 then apply).
 /// Returns (document, effective omission mask).
 pub fn write_doc(c: &FullCfg, omitted: u32, empty_headers: bool) -> (String, u32) {
     let mut om = omitted;
@@ -123,8 +123,6 @@ pub fn write_doc(c: &FullCfg, omitted: u32, empty_headers: bool) -> (String, u32
     }
     if om & (1 << 16) != 0 {
         om |= 1 << 17;
-    } else {
-        om &= !(1 << 17);
     }
     let mut doc = String::new();
     let mut cur: Option<usize> = None;
@@ -203,6 +201,8 @@ pub fn expected_value(c: &FullCfg, om: u32) -> FullCfg {
     }
     if o(16) {
         e.tukey_alpha_bits = d.tukey_alpha_bits;
+    } else if o(17) && e.tukey_alpha_bits.is_some() {
+        e.tukey_alpha_bits = Some(0.4f32.to_bits());
     }
     if o(18) {
         e.max_param = d.max_param;
@@ -398,16 +398,18 @@ pub fn run(args: &Args, rep: &Arc<Report>) {
     );
     let (doc, _) = write_doc(&values[0], 0b101_0000_0100, false);
     rep.sample(json!({"toml_omission": {"omitted_mask": 0b101_0000_0100, "document": doc}}));
-    // (c) a tagged ApproxEnt without `partitions`
+    // (c) a tagged ApproxEnt without `partitions`, a tagged Tukey without `alpha`
     {
         let mut local = Local::default();
         check_omission(rep, &mut local, &values[0], 1 << 11, false);
+        check_omission(rep, &mut local, &values[0], 1 << 17, false);
+        check_omission(rep, &mut local, &values[0], (1 << 11) | (1 << 17), false);
         rep.merge(local);
     }
     rep.extra("roundtrip_configs", json!(n));
     rep.extra("omission_documents", json!(wn));
     rep.set_rule(&format!(
-        "(a) toml::from_str(toml::to_string(c)) renders equal to c, and verify() agrees before/after and with the documented ranges, for every single- and two-field deviation of the C07 configuration set that TOML can carry ({n} values); (b) documents written by the harness from two all-non-default values with {} of the 2^19 subsets of the 19 leaf keys omitted (plus whole-section omissions, with and without the emptied section headers): parsed value == value with exactly the omitted leaves replaced by the documented defaults; (c) type=\"ApproxEnt\" without partitions -> 16; non-trivial = a round trip or a document with at least one omitted leaf that agreed",
+        "(a) toml::from_str(toml::to_string(c)) renders equal to c, and verify() agrees before/after and with the documented ranges, for every single- and two-field deviation of the C07 configuration set that TOML can carry ({n} values); (b) documents written by the harness from two all-non-default values with {} of the 2^19 subsets of the 19 leaf keys omitted (plus whole-section omissions, with and without the emptied section headers): parsed value == value with exactly the omitted leaves replaced by the documented defaults; (c) type=\"ApproxEnt\" without partitions -> 16, type=\"Tukey\" without alpha -> 0.4; non-trivial = a round trip or a document with at least one omitted leaf that agreed",
         if thorough { "ALL".to_string() } else { "every subset of size <= 4 or of co-size <= 3".to_string() }
     ));
 }
